@@ -704,6 +704,21 @@ class Machine:
         for a, b in ((x, y), (y, x)):
             if isinstance(b, int) and op == 'BitAnd' and b >= 0 and (b & (b + 1)) == 0:
                 return sym.mod(a, b + 1)
+        if op == 'BitOr':
+            # (a << k) | b  with 0 <= b < 2^k  ==  (a << k) + b : the usual way of assembling an integer from bytes.
+            # Recognised when one side is provably a multiple of 2^k and the other provably below 2^k (solver decided).
+            for a, b in ((x, y), (y, x)):
+                for k in (8, 16, 32):
+                    lim = 1 << k
+                    try:
+                        mult_ok = (isinstance(a, int) and a % lim == 0) or \
+                                  (isinstance(a, T) and not self.feasible(sym.ne(sym.mod(a, lim), 0)))
+                        small_ok = (isinstance(b, int) and 0 <= b < lim) or \
+                                   (isinstance(b, T) and not self.feasible(sym.or_(sym.lt(b, 0), sym.ge(b, lim))))
+                    except Exception:
+                        mult_ok = small_ok = False
+                    if mult_ok and small_ok:
+                        return sym.add(a, b)
         raise Unsupported('symbolic bit operation %s' % op)
 
     def divrem(self, op, x, y, ty):
